@@ -14,17 +14,18 @@ import (
 
 // Proc gathers anchors of the key-generation process service.
 type Proc struct {
-	Impl     *types.Named
-	Methods  map[string]*ssa.Function
+	Impl    *types.Named
+	Methods map[string]*ssa.Function
 	// LookupWrappers: helpers equivalent to Lookup for their callers (see Proc)
 	LookupWrappers map[*ssa.Function]bool
-	TableFld string // the session table field (map[string]*session)
-	Session  *types.Named
-	MuKey    string        // "Service.<mutex field>"
-	Lookup   *ssa.Function // helper reading the table and returning (*session, error)
-	NotFound *ssa.Global   // sentinel returned by the lookup
-	Verify   *ssa.Function // contribution check
-	ok       bool
+	TableFld       string // the session table field (map[string]*session)
+	Session        *types.Named
+	MuKey          string        // "Service.<mutex field>"
+	Lookup         *ssa.Function // helper reading the table and returning (*session, error)
+	NotFound       *ssa.Global   // sentinel returned by the lookup
+	LookupFlag     bool          // the lookup is of the form (session, found bool)
+	Verify         *ssa.Function // contribution check
+	ok             bool
 }
 
 func (c *Ctx) Proc(rule string) *Proc {
@@ -74,9 +75,10 @@ func (c *Ctx) Proc(rule string) *Proc {
 			continue
 		}
 		res := fn.Signature.Results()
-		if res.Len() == 2 && isErrorType(res.At(1).Type()) {
+		if res.Len() == 2 && (isErrorType(res.At(1).Type()) || isBoolType(res.At(1).Type())) {
 			if pt, ok := res.At(0).Type().(*types.Pointer); ok && types.Identical(pt.Elem(), p.Session) && len(c.tableAccesses(p, fn)) > 0 {
 				p.Lookup = fn
+				p.LookupFlag = isBoolType(res.At(1).Type()) // (session, found) instead of (session, error)
 			}
 		}
 	}
@@ -195,7 +197,9 @@ func (c *Ctx) Proc(rule string) *Proc {
 func (p *Proc) OK() bool { return p != nil && p.ok }
 
 // isLookup: fn is the session lookup or a wrapper that is equivalent to it for its callers.
-func (p *Proc) isLookup(fn *ssa.Function) bool { return fn != nil && (fn == p.Lookup || p.LookupWrappers[fn]) }
+func (p *Proc) isLookup(fn *ssa.Function) bool {
+	return fn != nil && (fn == p.Lookup || p.LookupWrappers[fn])
+}
 
 // tableAccess is an instruction that reads or writes the session table.
 type tableAccess struct {
@@ -262,6 +266,9 @@ func (p *Proc) lookupSuccessAtom(a *an.Atom, lc *ssa.Call) bool {
 	if errV == nil {
 		return false
 	}
+	if p.LookupFlag && lc.Call.StaticCallee() == p.Lookup {
+		return a.Op == "true" && a.LV == errV
+	}
 	if a.Op == "==" && ((a.LV == errV && isNilConst(a.RV)) || (a.RV == errV && isNilConst(a.LV))) {
 		return true
 	}
@@ -286,6 +293,9 @@ func (p *Proc) lookupFailAtom(a *an.Atom, lc *ssa.Call) bool {
 			errV = ex
 		}
 	}
+	if errV != nil && p.LookupFlag && lc.Call.StaticCallee() == p.Lookup {
+		return a.Op == "false" && a.LV == errV
+	}
 	return errV != nil && a.Op == "!=" && ((a.LV == errV && isNilConst(a.RV)) || (a.RV == errV && isNilConst(a.LV)))
 }
 
@@ -300,7 +310,52 @@ func (c *Ctx) SessionLifecycle(prop string) {
 	rule3 := "C17.O3 needs-active"
 	{
 		okSet := true
+		if p.LookupFlag {
+			// (session, found): wherever `found` can be true it is the presence flag of a read of the table, and the session
+			// returned with it is the value of that same read
+			type pair struct{ sess, flag ssa.Value }
+			var pairs []pair
+			for _, ret := range an.Returns(p.Lookup) {
+				sv, fv := an.Result(ret, 0), an.Result(ret, 1)
+				sp, ok1 := sv.(*ssa.Phi)
+				fp, ok2 := fv.(*ssa.Phi)
+				if ok1 && ok2 && sp.Block() == fp.Block() {
+					for j := range fp.Edges {
+						pairs = append(pairs, pair{sp.Edges[j], fp.Edges[j]})
+					}
+					continue
+				}
+				if ok2 {
+					for j := range fp.Edges {
+						pairs = append(pairs, pair{sv, fp.Edges[j]})
+					}
+					continue
+				}
+				pairs = append(pairs, pair{sv, fv})
+			}
+			for _, pr := range pairs {
+				if k, isK := pr.flag.(*ssa.Const); isK && an.Term(k) == "false" {
+					continue
+				}
+				fx, okF := pr.flag.(*ssa.Extract)
+				sx, okS := pr.sess.(*ssa.Extract)
+				var lk *ssa.Lookup
+				if okF {
+					lk, _ = fx.Tuple.(*ssa.Lookup)
+				}
+				if !okF || !okS || lk == nil || fx.Index != 1 || sx.Index != 0 || sx.Tuple != fx.Tuple {
+					okSet = false
+					c.R.Fail(rule3, Fn(p.Lookup)+":result", c.P.FuncPos(p.Lookup), "the lookup can report 'found' with something other than the table entry and its presence flag: ("+an.Term(pr.sess)+", "+an.Term(pr.flag)+")", "(table[name]) or (…, false)", nil)
+				}
+			}
+			if okSet {
+				c.R.OK(rule3, Fn(p.Lookup)+":errors", c.P.FuncPos(p.Lookup), "the lookup returns the table entry with its presence flag, or false")
+			}
+		}
 		for _, ret := range an.Returns(p.Lookup) {
+			if p.LookupFlag {
+				break
+			}
 			ev := unwrapErr(an.Result(ret, 1))
 			sv := an.Result(ret, 0)
 			if isNilConst(ev) {
@@ -343,7 +398,7 @@ func (c *Ctx) SessionLifecycle(prop string) {
 				c.R.Fail(rule3, "global:"+p.NotFound.Name(), c.Pos(w[0]), "the not-found sentinel is reassigned", "sentinel constant", nil)
 			}
 		}
-		if okSet {
+		if okSet && !p.LookupFlag && p.NotFound != nil {
 			c.R.OK(rule3, Fn(p.Lookup)+":errors", c.P.FuncPos(p.Lookup), "the lookup returns (table entry, nil) or (nil, "+p.NotFound.Name()+")")
 		}
 	}
@@ -722,8 +777,14 @@ func init() {
 			c.SessionLifecycle("C17")
 			c.ParticipantsAsSent("C17")
 			c.ReceiverFront("C17")
+			c.OneInstance("C17", "process") // one session table
 		},
 		Explanation: "The session table is a typestate machine decided structurally: every access and every lookup happens with the table mutex write-held and the mutex is released on every return; prepare inserts only below the lookup's not-found edge and leaves a found session untouched; execute, contribute, commit and abort use the session, change the table or report success only below lookup success (the lookup's errors are exactly {nil, not found}); commit succeeds only past both per-participant completeness tests and after deleting the session, abort after deleting it, and the lookup deletes only past the timeout comparison; nothing else writes the table; the gRPC receiver in front answers success only past the nil-error edge of the process service's call and keeps no state of its own. See DESIGN.md §5 C17.",
 		Trusted:     append([]string{"peers are cooperating (len == participants means the listed participants)", "wall clock"}, commonTrusted...),
 	})
+}
+
+func isBoolType(t types.Type) bool {
+	b, ok := t.Underlying().(*types.Basic)
+	return ok && b.Kind() == types.Bool
 }
